@@ -313,6 +313,12 @@ class Export(object):
                     + f"event count to {l_min} (max {l_max}) in '{l_min}'.",
                     LimitingExportSizeWarning)
 
+        # The number of exported events (the writer only updates the event
+        # count from the feature data if there are any events).
+        if filter_arr is not None:
+            meta.setdefault("experiment", {})["event count"] = \
+                int(np.sum(filter_arr))
+
         # Perform actual export
         with RTDCWriter(path,
                         mode="append",
